@@ -84,6 +84,68 @@ static bool hasViolation(const RunResult &r, const QString &cls, const QString &
     return false;
 }
 
+// run a plan in a forked child and bring back (trace hash, matching violation's detail); the calling process itself
+// never executes library code, so every such run starts from pristine process-wide state (statics of the library
+// under test included) exactly like a fresh-process replay
+struct IsolatedResult {
+    bool ok = false;
+    quint64 traceHash = 0;
+    bool violates = false;
+    QString detail;
+};
+static IsolatedResult runIsolated(Engine *e, const Plan &p, const QString &cls, const QString &sig)
+{
+    IsolatedResult ir;
+    int fds[2];
+    if (pipe(fds) != 0) {
+        return ir;
+    }
+    fflush(stdout);
+    fflush(stderr);
+    pid_t pid = fork();
+    if (pid == 0) {
+        close(fds[0]);
+        int devnull = open("/dev/null", O_WRONLY);
+        if (devnull >= 0) {
+            dup2(devnull, 2);
+        }
+        const RunResult r = runPlan(e, p, false);
+        QString detail;
+        bool v = false;
+        for (const auto &x : r.violations) {
+            if (x.cls == cls && (sig.isEmpty() || x.signature == sig)) {
+                v = true;
+                detail = x.detail;
+                break;
+            }
+        }
+        const QByteArray line = QByteArray::number(r.traceHash, 16) + ' ' + (v ? '1' : '0') + ' ' + detail.toUtf8().toBase64() + '\n';
+        ssize_t w = write(fds[1], line.constData(), (size_t)line.size());
+        (void)w;
+        _exit(0);
+    }
+    close(fds[1]);
+    QByteArray buf;
+    char tmp[4096];
+    ssize_t n;
+    while ((n = read(fds[0], tmp, sizeof tmp)) > 0) {
+        buf.append(tmp, (int)n);
+    }
+    close(fds[0]);
+    int status = 0;
+    if (pid > 0) {
+        waitpid(pid, &status, 0);
+    }
+    const auto parts = buf.trimmed().split(' ');
+    if (parts.size() >= 2) {
+        ir.ok = true;
+        ir.traceHash = parts[0].toULongLong(nullptr, 16);
+        ir.violates = parts[1] == "1";
+        ir.detail = parts.size() > 2 ? QString::fromUtf8(QByteArray::fromBase64(parts[2])) : QString();
+    }
+    return ir;
+}
+
 static Plan shrink(Engine *e, Plan plan, const QString &cls, const QString &sig, int &execs, int budget)
 {
     // every candidate runs in a forked child: a candidate that crashes (assertion, sanitizer report) is simply
@@ -298,13 +360,13 @@ int main(int argc, char **argv)
         const QString cls = argValue(args, QStringLiteral("--cls"));
         const QString sig = argValue(args, QStringLiteral("--sig"));
         const QString outFile = argValue(args, QStringLiteral("--out"));
-        RunResult r0 = runPlan(e, plan, false);
-        RunResult r0b = runPlan(e, plan, false);
-        if (r0.traceHash != r0b.traceHash) {
+        const IsolatedResult r0 = runIsolated(e, plan, cls, sig);
+        const IsolatedResult r0b = runIsolated(e, plan, cls, sig);
+        if (!r0.ok || !r0b.ok || r0.traceHash != r0b.traceHash) {
             out(QStringLiteral("NONDETERMINISTIC seed=%1 %2 vs %3").arg(seed).arg(r0.traceHash, 0, 16).arg(r0b.traceHash, 0, 16));
             return 2;
         }
-        if (!hasViolation(r0, cls, sig)) {
+        if (!r0.violates) {
             out(QStringLiteral("NOT-REPRODUCED seed=%1 cls=%2 sig=%3").arg(seed).arg(cls, sig));
             return 2;
         }
@@ -312,14 +374,8 @@ int main(int argc, char **argv)
         const int before = plan.ops.size();
         const int budget = argValue(args, QStringLiteral("--budget"), QStringLiteral("1500")).toInt();
         Plan small = budget > 0 ? shrink(e, plan, cls, sig, execs, budget) : plan;
-        RunResult rs = runPlan(e, small, false);
-        QString detail;
-        for (const auto &v : rs.violations) {
-            if (v.cls == cls && v.signature == sig) {
-                detail = v.detail;
-                break;
-            }
-        }
+        const IsolatedResult rs = runIsolated(e, small, cls, sig);
+        const QString detail = rs.detail;
         QJsonObject doc;
         doc[QStringLiteral("plan")] = small.toJson();
         QJsonObject expect;
